@@ -12,7 +12,7 @@ sub-expression in parentheses leaves the tree unchanged.
 
 Binding: every exported (tokens, sub-expression spans, value per environment)
 is rendered in several spellings (plain; spaces between tokens; function names
-in other case; a redundant pair of parentheses around a random
+and TRUE/FALSE in other case; a redundant pair of parentheses around a random
 sub-expression; all of these together), compiled with ExcelFormula and
 evaluated through ExcelFormula.build_eval_context, and also placed in a
 workbook and evaluated with ExcelCompiler.evaluate with the referenced cells
@@ -34,6 +34,9 @@ from harness.evidence import Verdict
 
 PID = 'C02'
 CHUNK = 500
+# proposed known finding: a text literal spelled like an error value (or like
+# pycel's empty-operand sentinel) is taken for that error value (for blank)
+FINDING_ERROR_TEXT = 'C02_r3_2'
 COST = {'P': 1, 'S': 1, 'I3': 1, 'I2': 3, 'I1': 5}
 
 ALL_BINARY = ['^', '*', '/', '+', '-', '&', '=', '<>', '<', '<=', '>', '>=']
@@ -45,7 +48,7 @@ CFG = {
                              calls=('SUM(', 'IF('), parens=True)),
     'lit': dict(Operands='AllOperands', Binary='LitBinary', Prefix='{"u-"}',
                 Postfix='{"%"}', Calls='{}', Parens='FALSE',
-                counts=dict(nopnd=27, nbin=4, npre=1, npost=1, calls=(), parens=False)),
+                counts=dict(nopnd=39, nbin=4, npre=1, npost=1, calls=(), parens=False)),
     'sim': dict(Operands='AllOperands', Binary='AllBinary', Prefix='{"u-", "u+"}',
                 Postfix='{"%"}', Calls='{"SUM(", "IF("}', Parens='TRUE', counts=None),
 }
@@ -58,7 +61,7 @@ def cfg_text(name, maxlen, minexport, invariants):
              f'  Prefix = {c["Prefix"]}', f'  Postfix = {c["Postfix"]}',
              f'  Calls = {c["Calls"]}', f'  Parens = {c["Parens"]}',
              f'  MaxLen = {maxlen}', f'  MinExport = {minexport}',
-             '  Lit <- MCLit', '  Refs <- MCRefs', '  Envs <- MCEnvs',
+             '  Lit <- MCLit', '  LitDev <- MCLitDev', '  Refs <- MCRefs', '  Envs <- MCEnvs',
              'SPECIFICATION Spec']
     lines += [f'INVARIANT {i}' for i in invariants]
     return '\n'.join(lines) + '\n'
@@ -105,25 +108,35 @@ def count_formulas(nopnd, nbin, npre, npost, calls, parens, maxlen):
 # ---------------------------------------------------------------------------
 # rendering a token string as formula text
 
+CASED = ('SUM(', 'IF(', 'TRUE', 'FALSE')     # tokens that have a letter case
+
 class Speller:
     def __init__(self, tables, rnd):
         self.lit = tables['lit']
+        self.num = tables['num']
         self.rnd = rnd
+
+    @staticmethod
+    def recase(name, fcase):
+        """a function name or TRUE / FALSE in another case (Excel reads both
+        without regard to case)"""
+        if fcase == 1:
+            return name.lower()
+        if fcase == 2:
+            return name.capitalize()
+        if fcase == 3:
+            return ''.join(ch.lower() if i % 2 == 0 else ch for i, ch in enumerate(name))
+        return name
 
     def token(self, t, fcase=0):
         if t in ('u-', 'u+'):
             return t[1]
-        if t in ('SUM(', 'IF('):
-            name = t[:-1]
-            if fcase == 1:
-                name = name.lower()
-            elif fcase == 2:
-                name = name.capitalize()
-            elif fcase == 3:
-                name = ''.join(ch.lower() if i % 2 == 0 else ch for i, ch in enumerate(name))
-            return name + '('
+        if t in CASED:
+            return self.recase(t[:-1], fcase) + '(' if t.endswith('(') else self.recase(t, fcase)
         if t[0] == 'T' and t[1:].isdigit():
             return '"' + text_of(self.lit[t]).replace('"', '""') + '"'
+        if t in self.num:
+            return ''.join(chr(c) for c in self.num[t])     # a numeral, as spelled
         return t
 
     def render(self, toks, spaces=False, fcase=0, wrap=None):
@@ -143,7 +156,7 @@ class Speller:
     def spellings(self, vec, lean=False):
         toks = vec['toks']
         rnd = self.rnd
-        has_call = any(t in ('SUM(', 'IF(') for t in toks)
+        has_call = any(t in CASED for t in toks)
         span = rnd.choice(vec['sp'])
         out = [('plain', self.render(toks))]
         if not lean:
@@ -167,7 +180,7 @@ class Collector:
     """what one worker process reports back (a Verdict without the file)"""
 
     def __init__(self):
-        self.violations, self.samples = [], []
+        self.violations, self.samples, self.known = [], [], []
         self.evaluations = 0
 
     def case(self, key):
@@ -179,6 +192,9 @@ class Collector:
 
     def violation(self, desc, case):
         self.violations.append(dict(desc=desc, case=case))
+
+    def known_finding(self, fid, desc, case):
+        self.known.append(dict(fid=fid, desc=desc, case=case))
 
 
 class Counted:
@@ -230,10 +246,20 @@ class Binder:
         if why:
             env = {k: show(x) for k, x in self.tables['envs'][e].items()} \
                 if self.uses_refs(vec) else {}
-            v.violation(
-                f'[{route}/{kind}] {f} {env or ""}: reference value {show(want)}; {why}',
-                dict(route=route, spelling=kind, formula=f, env=e, toks=vec['toks'],
-                     want=want, scale=vec['scale'][e], got=brief(got, 200)))
+            desc = f'[{route}/{kind}] {f} {env or ""}: reference value {show(want)}; {why}'
+            case = dict(route=route, spelling=kind, formula=f, env=e, toks=vec['toks'],
+                        want=want, scale=vec['scale'][e], got=brief(got, 200))
+            # the known deviation, and nothing else: the formula holds a text
+            # literal spelled like an error value and the result is exactly
+            # the value of the formula with that literal read as the error
+            dev = vec.get('dev') or None
+            if dev and not mismatch(got, dev[e], vec['scale'][e]):
+                case['deviant'] = dev[e]
+                v.known_finding(FINDING_ERROR_TEXT,
+                                desc + f' (= {show(dev[e])}, the text read as an error value)',
+                                case)
+            else:
+                v.violation(desc, case)
 
     @staticmethod
     def uses_refs(vec):
@@ -356,6 +382,7 @@ def _bind_chunk(args):
     b = Binder(col, _JOB['tables'], random.Random(_JOB['seed'] * 1000003 + idx))
     b.bind(_JOB['vectors'][lo:hi], wb_share, lean_from)
     return dict(violations=col.violations[:40], nviol=len(col.violations),
+                known=col.known[:10], nknown=len(col.known),
                 evaluations=col.evaluations, samples=col.samples, skipped=b.skipped,
                 by_route=b.by_route, by_spelling=b.by_spelling)
 
@@ -378,6 +405,10 @@ def bind_parallel(v, totals, tables, vectors, seed, wb_share, procs, chunk=1500,
             if len(v.violations) < 2000:
                 v.violation(x['desc'], x['case'])
         totals['violations_total'] += r['nviol']
+        for x in r['known']:
+            if sum(len(c) for c in v.known.values()) + len(v.violations) < 2000:
+                v.known_finding(x['fid'], x['desc'], x['case'])
+        totals['known_total'] += r['nknown']
         v.evaluations += r['evaluations']
         v.distinct.n += r['evaluations']
         for smp in r['samples']:
@@ -443,7 +474,8 @@ def run(tier, seed):
             raise errors[key]
         return results[key]
 
-    totals = dict(skipped=0, by_route=Counter(), by_spelling=Counter(), violations_total=0)
+    totals = dict(skipped=0, by_route=Counter(), by_spelling=Counter(), violations_total=0,
+                  known_total=0)
     seen = set()
 
     def fresh(vectors):
@@ -487,6 +519,7 @@ def run(tier, seed):
         generator_actions_in_exported_formulas=dict(taken),
         skipped_unmodelled=totals['skipped'],
         violations_total=totals['violations_total'],
+        known_finding_cases_total=totals['known_total'],
         evaluations_by_route=dict(totals['by_route']),
         evaluations_by_spelling=dict(totals['by_spelling']),
         environments=[{k: show(x) for k, x in env.items()} for env in tables['envs']],
@@ -501,7 +534,7 @@ def run(tier, seed):
                     'point), order of texts with characters outside letters/digits, '
                     'SUM of text/logical/blank arguments (C14), IF with a text '
                     'condition, two-argument IF, IF returning a blank reference',
-                    'lower-case TRUE/FALSE and references (Excel stores them upper-case)',
+                    'lower-case references (Excel stores them upper-case)',
                     'spaces between two adjacent operands (intersection operator)'])
     v.assumptions = ['TLC evaluates the Formula/ExcelValues definitions correctly',
                      'numbers compared with 1e-12 relative tolerance against the exact rational']
